@@ -2,6 +2,8 @@
   C15 — Variant tags map back to the variant written; foreign tags are rejected.
 -/
 import EpsModel.Lemmas.HeaderL
+import EpsModel.Lemmas.FrameEps2
+import EpsModel.Lemmas.ManyErr
 namespace Eps.C15
 open Eps
 
@@ -132,6 +134,62 @@ theorem enum_written_tag (mt : AdtMeta) (vs : Variants) (i : Nat) (fs : List Val
   refine ⟨Ty.enc_adt_enum mt vs i fs pos hz, ?_⟩
   simp only [Ty.wt, Bool.and_eq_true] at hv
   exact Variants.wt_lt vs i fs hv.2
+
+/-! ### A foreign tag in any item of a sequence of sums (round 10: arrays of sums)
+
+    The loop `for _ in 0..n { res.push(read()?) }` stops at the first item that is refused: a foreign
+    tag in an item that is *not the last one* is reported exactly like one in the last item. -/
+
+/-- **Arrays of deep-copy items**: after any number `vs.length < n` of well-formed items, an item that the item
+    reader refuses with `e` makes the whole array refused with `e` (full-copy reader). -/
+theorem array_item_error_full (t : Ty) (n : Nat) (hz : t.isZC = false) (ht : t.wf = true)
+    (vs : List Val) (hwt : ∀ v ∈ vs, t.wt v = true) (hlen : vs.length < n) (pos : Nat) (rest : B) (e : Err)
+    (herr : t.decFull .reader rest (pos + (Ty.encList t vs pos).length) = .err e) :
+    (Ty.array t n).decFull .reader (Ty.encList t vs pos ++ rest) pos = .err e := by
+  have hok := decMany_encList .reader t vs
+    (fun v hv pos rest ha => Ty.framedFull .reader t ht v (hwt v hv) pos rest ha) pos rest (AlignedAll_reader _)
+  obtain ⟨k, hk⟩ : ∃ k, n = vs.length + (k + 1) := ⟨n - vs.length - 1, by omega⟩
+  have := Eps.decMany_err_after (t.decFull .reader) e vs k _ pos _ _ hok herr
+  simp only [Ty.decFull, hz, Bool.false_eq_true, if_false]
+  rw [hk, this]
+  rfl
+
+/-- The same for the ε-copy reader, on a buffer whose base makes the items already read well placed. -/
+theorem array_item_error_eps (base : Nat) (t : Ty) (n : Nat) (hz : t.isZC = false) (ht : t.wf = true)
+    (vs : List Val) (hwt : ∀ v ∈ vs, t.wt v = true) (hlen : vs.length < n) (pos : Nat) (rest : B) (e : Err)
+    (ha : AlignedAll (.slice base) (Ty.blocksList t vs pos))
+    (herr : t.decEps base rest (pos + (Ty.encList t vs pos).length) = .err e) :
+    (Ty.array t n).decEps base (Ty.encList t vs pos ++ rest) pos = .err e := by
+  obtain ⟨es, hok, her, _⟩ := decMany_eps base t vs (fun v hv => Ty.framedEps base t ht v (hwt v hv)) pos rest ha
+  have hl : es.length = vs.length := by rw [← Eps.eraseList_length es, her]
+  obtain ⟨k, hk⟩ : ∃ k, n = es.length + (k + 1) := ⟨n - vs.length - 1, by omega⟩
+  rw [← hl] at hok
+  have := Eps.decMany_err_after (t.decEps base) e es k _ pos _ _ hok herr
+  simp only [Ty.decEps, hz, Bool.false_eq_true, if_false]
+  rw [hk, this]
+  rfl
+
+/-- An array of options: a foreign tag byte in item number `vs.length` (any item, not only the last). -/
+theorem array_option_foreign_full (t : Ty) (n : Nat) (ht : (Ty.option t).wf = true)
+    (vs : List Val) (hwt : ∀ v ∈ vs, (Ty.option t).wt v = true) (hlen : vs.length < n)
+    (g : UInt8) (hg : 2 ≤ g.toNat) (pos : Nat) (rest : B) :
+    (Ty.array (.option t) n).decFull .reader (Ty.encList (.option t) vs pos ++ g :: rest) pos = .err (.invalidTag g.toNat) :=
+  array_item_error_full (.option t) n rfl ht vs hwt hlen pos (g :: rest) _ (option_foreign_full .reader t g hg rest _)
+
+theorem array_option_foreign_eps (base : Nat) (t : Ty) (n : Nat) (ht : (Ty.option t).wf = true)
+    (vs : List Val) (hwt : ∀ v ∈ vs, (Ty.option t).wt v = true) (hlen : vs.length < n)
+    (g : UInt8) (hg : 2 ≤ g.toNat) (pos : Nat) (rest : B)
+    (ha : AlignedAll (.slice base) (Ty.blocksList (.option t) vs pos)) :
+    (Ty.array (.option t) n).decEps base (Ty.encList (.option t) vs pos ++ g :: rest) pos = .err (.invalidTag g.toNat) :=
+  array_item_error_eps base (.option t) n rfl ht vs hwt hlen pos (g :: rest) _ ha (option_foreign_eps base t g hg rest _)
+
+/-- Non-vacuity: `[Option<u8>; 3]`, two well-formed items (`None`, `Some(7)`), then the tag byte 2. -/
+example :
+    (Ty.array (.option (.prim (.int .u8))) 3).decFull .reader
+      (Ty.encList (.option (.prim (.int .u8))) [.variant 0 [], .variant 1 [.bits 7]] 0 ++ [2, 9]) 0 = .err (.invalidTag 2) :=
+  array_option_foreign_full (.prim (.int .u8)) 3 (by decide) [.variant 0 [], .variant 1 [.bits 7]]
+    (by intro v hv; simp only [List.mem_cons, List.not_mem_nil, or_false] at hv; rcases hv with rfl | rfl <;> simp [Ty.wt, Prim.wt, IntK.size])
+    (by decide) 2 (by decide) 0 [9]
 
 /-- Non-vacuity: a two-variant enum and a foreign tag. -/
 example : (Variants.cons [65] .nil (.cons [66] (.cons [48] false (.prim (.int .u8)) .nil) .nil)).length ≤ 2 := by
